@@ -1,4 +1,4 @@
-From Coq Require Import List String Ascii Bool Arith Lia.
+From Coq Require Import List String Ascii Bool Arith Lia Permutation.
 Import ListNotations.
 Require Import SDJ.Json SDJ.Model2.
 Local Open Scope string_scope.
@@ -17,11 +17,30 @@ Fixpoint list_set {A} (i : nat) (x : A) (l : list A) : list A :=
   | y :: r, S i => y :: list_set i x r
   end.
 
+(* Vec::insert(n, x) with n clipped to the length *)
+Definition insert_at {A} (n : nat) (x : A) (l : list A) : list A := (firstn n l ++ x :: skipn n l)%list.
+
+Lemma insert_at_map {A B} (f : A -> B) n x l : map f (insert_at n x l) = insert_at n (f x) (map f l).
+Proof. unfold insert_at. rewrite map_app, firstn_map, skipn_map. reflexivity. Qed.
+Lemma in_insert_at {A} n (x y : A) l : In y (insert_at n x l) <-> y = x \/ In y l.
+Proof.
+  unfold insert_at. rewrite in_app_iff. cbn [In].
+  assert (Hl : In y l <-> In y (firstn n l) \/ In y (skipn n l)).
+  { rewrite <- in_app_iff, firstn_skipn. reflexivity. }
+  rewrite Hl. split; [intros [H|[H|H]]; auto|intros [H|[H|H]]; auto].
+Qed.
+
+Lemma perm_insert_at {A} n (x : A) l : Permutation.Permutation (insert_at n x l) (x :: l).
+Proof.
+  unfold insert_at. rewrite <- (firstn_skipn n l) at 3. symmetry. apply Permutation.Permutation_middle.
+Qed.
+
 Section Issuer.
 Variable H : string -> string.
 Variable enc : list json -> string.
 Variable parse_index : string -> option nat.   (* serde_json pointer grammar for array tokens *)
 Variable parse_usize : string -> option nat.   (* Rust usize::from_str *)
+Variable pos : string -> nat.                  (* position at which a new digest is inserted into its _sd array *)
 
 Definition mk_disc (salt : json) (key : option string) (v : json) : disc :=
   let s := enc (match key with Some k => [salt; JStr k; v] | None => [salt; v] end) in
@@ -51,7 +70,7 @@ Definition disclose_here (key : string) (salt : json) (parent : json) : res (jso
             let d := mk_disc salt (Some key) v in
             let kvs1 := obj_remove key kvs in
             match obj_get "_sd" kvs1 with
-            | Some (JArr ds) => Ok (JObj (obj_insert "_sd" (JArr (ds ++ [JStr (d_digest d)])) kvs1), d)
+            | Some (JArr ds) => Ok (JObj (obj_insert "_sd" (JArr (insert_at (pos (d_digest d)) (JStr (d_digest d)) ds)) kvs1), d)
             | Some _ => Err
             | None => Ok (JObj (obj_insert "_sd" (JArr [JStr (d_digest d)]) kvs1), d)
             end
